@@ -560,7 +560,9 @@ def spec : Drv SpecSt where
             | _ => false
           let ec := if cmdFailed then [] else failedSends deadLink (c.algoC.filter (!refused ·))
           let eo := if cmdFailed then [] else failedSends deadLink (c.algoO.filter (!refused ·))
-          (s, [ line "nerr" (toString all.length), line "errbag" (nats (sortNats all)),
+          let outs := specEngineOutputs deadLink c.enabled c.ev c.algoC c.algoO
+          (s, [ line "outputs" (" ".intercalate (specShape outs :: outs.map fmtOut)),
+                line "nerr" (toString all.length), line "errbag" (nats (sortNats all)),
                 line "terminal" (fmtBool (c.ev.terminal || !all.isEmpty)) ]
               ++ (if ec.length == 1 && decide (2 ≤ eo.length) && all.length == ec.length + eo.length then []
                   else [line "errors" (" ".intercalate (specShape all :: all.map toString))]))
